@@ -2,8 +2,10 @@ package walletkit
 
 import (
 	"fmt"
+	"github.com/bytom/bytom/wallet"
 	"path/filepath"
 	"sort"
+	"time"
 
 	"github.com/bytom/bytom/account"
 	"github.com/bytom/bytom/protocol/bc"
@@ -313,6 +315,28 @@ func RunTree(c *ev.Case, e *Env, dir string, obs Observer) {
 	for step, i := range ord {
 		if !s.Deliver(s.Tree.All[i]) {
 			return
+		}
+		// a rescan (what deleting an account, renaming one or recovering keys triggers) requested while
+		// the chain keeps moving: the next blocks, reorganisations included, arrive while the wallet
+		// is attaching the main chain again from genesis
+		if step > 3 && step+2 < len(ord) && rng.Chance(1, 8) {
+			before := wallet.VerifRescansStarted()
+			s.W.W.RescanBlocks()
+			c.Count("rescans_requested", 1)
+			// the request is taken by the updater goroutine: wait (logical condition on the hook counter,
+			// watchdog 20 s) until the rescan has reset the wallet's work position to the genesis block, so
+			// that no later observation mistakes the pre-rescan state for a quiescent one
+			started := false
+			for i := 0; i < 20000 && !started; i++ {
+				if started = wallet.VerifRescansStarted() > before; !started {
+					time.Sleep(time.Millisecond)
+				}
+			}
+			if !started {
+				c.Inconclusive("case %d: the wallet did not start the requested rescan within the watchdog", c.Index)
+				return
+			}
+			continue
 		}
 		if !s.Observe(step, true, false, step == len(ord)-1) {
 			return
